@@ -5,17 +5,18 @@
 set -u
 SD=$(realpath "$1"); shift
 EXTRA="$*"
-WT=/tmp/vp_confirm_wt
+WT=${VP_CONFIRM_WT:-/tmp/vp_confirm_wt}
+TG=$(basename $WT)
 export OMPI_ALLOW_RUN_AS_ROOT=1 OMPI_ALLOW_RUN_AS_ROOT_CONFIRM=1 OMPI_MCA_rmaps_base_oversubscribe=1
 if [ ! -d $WT ]; then git -C /repo worktree add -f --detach $WT HEAD >/dev/null 2>&1; fi
 git -C $WT checkout -q --detach $(git -C /repo rev-parse HEAD) && git -C $WT checkout -q -- . 
 CXX="g++ -std=c++17 -I$WT/include $EXTRA"
-$CXX $SD/demo.cpp -o /tmp/vp_demo0 $LIBS_DEMO >/tmp/vp_demo0.log 2>&1 || { echo "RESULT demo-does-not-compile-pristine"; tail -5 /tmp/vp_demo0.log; exit 1; }
-timeout 120 /tmp/vp_demo0 >/dev/null 2>&1; R0=$?
+$CXX $SD/demo.cpp -o /tmp/${TG}_demo0 $LIBS_DEMO >/tmp/${TG}_demo0.log 2>&1 || { echo "RESULT demo-does-not-compile-pristine"; tail -5 /tmp/${TG}_demo0.log; exit 1; }
+timeout 120 /tmp/${TG}_demo0 >/dev/null 2>&1; R0=$?
 git -C $WT apply $SD/patch.diff || { echo "RESULT patch-does-not-apply"; exit 1; }
-$CXX $SD/demo.cpp -o /tmp/vp_demo1 $LIBS_DEMO >/tmp/vp_demo1.log 2>&1; C1=$?
-if [ $C1 = 0 ]; then timeout 120 /tmp/vp_demo1 >/dev/null 2>&1; R1=$?; else R1=compile-error; fi
-( cd $WT && { [ -f _build/build.ninja ] || cmake -G Ninja -B _build -DCMAKE_BUILD_TYPE=RelWithDebInfo -DCMAKE_CXX_FLAGS=-Wno-error >/dev/null; } && cmake --build _build 2>&1 | tail -2 >/tmp/vp_confirm_build.log; ctest --test-dir _build -j8 --timeout 900 2>&1 | tail -4 > /tmp/vp_confirm_ctest.log )
-T=$(grep -c "100% tests passed, 0 tests failed out of 78" /tmp/vp_confirm_ctest.log)
+$CXX $SD/demo.cpp -o /tmp/${TG}_demo1 $LIBS_DEMO >/tmp/${TG}_demo1.log 2>&1; C1=$?
+if [ $C1 = 0 ]; then timeout 120 /tmp/${TG}_demo1 >/dev/null 2>&1; R1=$?; else R1=compile-error; fi
+( cd $WT && { [ -f _build/build.ninja ] || cmake -G Ninja -B _build -DCMAKE_BUILD_TYPE=RelWithDebInfo -DCMAKE_CXX_FLAGS=-Wno-error >/dev/null; } && cmake --build _build -j${VP_CONFIRM_J:-16} 2>&1 | tail -2 >/tmp/${TG}_build.log; ctest --test-dir _build -j${VP_CONFIRM_J:-8} --timeout 900 2>&1 | tail -4 > /tmp/${TG}_ctest.log )
+T=$(grep -c "100% tests passed, 0 tests failed out of 78" /tmp/${TG}_ctest.log)
 git -C $WT checkout -q -- .
 echo "RESULT demo_pristine_exit=$R0 demo_patched_exit=$R1 suite_passes_with_patch=$T"
